@@ -101,6 +101,7 @@ Definition event_eqb (a b:event) : bool :=
   | Reg b, Reg b' => Bool.eqb b b'
   | Raised c, Raised c' => String.eqb c c'
   | Noted c, Noted c' => String.eqb c c'
+  | Forget, Forget => true
   | _, _ => false
   end.
 Fixpoint trace_eqb (a b:list event) : bool :=
